@@ -68,6 +68,18 @@ RULES = {
         "read in another one (r[j*rows+i] = x[i*cols+j] overwrites its own source whenever r == x, square or not); such loops must read "
         "from the temporary copy (decided by enumerating the index sequences for small shapes under r == x: an element stored through r and later "
         "loaded through x). Broken -> in-place transposition mirrors one triangle into the other.", 1),
+    "C02.alias-safe-members": (
+        "a member f(const T& x) of T that hands this's and x's arrays to an alias-aware kernel (one that branches on its two pointer "
+        "parameters being equal, i.e. the call with &x == this is provided for) and has no `this == &x` guard must itself be alias safe: no "
+        "accessor of x that reads scalar slot k (rows(), columns(), size(), ...) or x's arrays may execute after this's slot k / arrays were "
+        "written (accessor assignment `_rows() = ...`, _scalar_index update, move/clear/clone of *this) on any CFG path - with &x == this the "
+        "read returns the new value. Broken -> a.transpose(a) of an m x n DenseMatrix yields wrong dimensions.", 1),
+    "C02.E2.offset-store-unconditional": (
+        "count/fill loop nests (E3): a store P[v + c] = ... into a locally held index array by the variable v of an enclosing counting loop "
+        "(the per-row store of a row pointer, row_ptr[l + 1] = cursor) is needed for every iteration of that row loop whether or not the "
+        "inner entry loops run. Inside the enclosing loops, a skip (continue / break / return / if around the row loop) is accepted only if "
+        "its condition is the row loop's own emptiness (init >= bound); a skip whose condition is the emptiness of an *inner* (entry) loop "
+        "bypasses the store for rows without entries. Broken -> uninitialised / non-monotone row pointers for matrices with empty rows.", 10),
     "C02.E2.local-array-index": (
         "conversion code that builds its result in local DenseVector arrays: a subscript `p[v + c]` of such an array (p = V.elements(), V "
         "constructed with extent E) by the variable of a counting loop `for(v = ..; v < B; ++v)` needs E - B - c >= 0 as polynomials over "
@@ -659,6 +671,283 @@ def alias_kernel_rules(ck, fam, facts, seen_fail):
         if not ok:
             seen_fail.add(("alias", key))
         ck.ob("C02.alias-safe-transpose", "%s/aliased-run" % key, ok, det, fn.file, fn.line, sample={"function": fn.full, "detail": det})
+
+
+# -------------------------------------------------------------------------------------------------
+# E3 (light): per-row offset stores are not skipped for rows without entries
+# -------------------------------------------------------------------------------------------------
+
+def offset_store_rules(ck, fam, seen_fail):
+    for fn in fam.functions():
+        if fn.body is None:
+            continue
+        fors = [n for n in fn.nodes() if n.get("k") == "For"]
+        if not fors:
+            continue
+        it = None
+
+        def loop_info(f):
+            init, c, inc = f.get("init"), f.get("c") or {}, f.get("inc") or {}
+            if init is None or init.get("k") != "Decl" or len(init.get("vars", [])) != 1 or init["vars"][0].get("init") is None:
+                return None
+            v = init["vars"][0]
+            if not (inc.get("k") == "Un" and inc.get("op") == "++" and L.unwrap(inc["e"]).get("d") == v["d"]):
+                return None
+            if not (c.get("k") == "Bin" and c.get("op") in ("<", "<=") and L.unwrap(c["lhs"]).get("d") == v["d"]):
+                return None
+            return v, v["init"], c["rhs"], c["op"]
+
+        def contains(a, b):
+            return any(x is b for x in walk(a))
+
+        def skips(stmt):
+            """does stmt (an If) leave the current loop iteration / function on one of its sides? -> list of (cond, when)"""
+            out = []
+            if stmt.get("k") != "If":
+                return out
+            for side, when in ((stmt.get("then"), True), (stmt.get("else"), False)):
+                if side is None:
+                    continue
+                def leaves(n, depth=0):
+                    k = n.get("k")
+                    if k in ("Return", "Throw"):
+                        return True
+                    if k in ("Continue", "Break"):
+                        return depth == 0
+                    if k in ("For", "While", "Do", "ForRange", "Switch"):
+                        return any(leaves(c, depth + 1) for c in featlib.children(n))
+                    return any(leaves(c, depth) for c in featlib.children(n))
+                if leaves(side):
+                    out.append((stmt["c"], when))
+            return out
+
+        def empties(cond, when, info):
+            """does (cond == when) state that the counting loop `info` runs zero times?"""
+            v, a, b, op = info
+            c = L.unwrap(cond)
+            neg = not when
+            while c.get("k") == "Un" and c.get("op") == "!":
+                c = L.unwrap(c["e"])
+                neg = not neg
+            if c.get("k") != "Bin" or c.get("op") not in ("<", "<=", ">", ">=", "=="):
+                return False
+            o = c["op"]
+            x, y = poly(it, c["lhs"]), poly(it, c["rhs"])
+            if neg:
+                if o == "==":
+                    return False
+                o = {"<": ">=", "<=": ">", ">": "<=", ">=": "<"}[o]
+            if o in ("<", "<="):
+                x, y, o = y, x, {"<": ">", "<=": ">="}[o]
+            A, B = poly(it, a), poly(it, b)
+            # loop runs while v < B (or <=): empty iff A >= B (A > B)
+            if x == A and y == B:
+                return o in (">", ">=", "==") if op == "<" else o == ">"
+            return False
+
+        for store in fn.nodes():
+            if store.get("k") != "Assign" or store.get("op") != "=":
+                continue
+            lhs = L.unwrap(store["lhs"])
+            if lhs.get("k") != "Index":
+                continue
+            base = L.unwrap(lhs["b"])
+            if base.get("k") != "Ref" or base.get("dk") != "local" or "*" not in fn.ntype(base) or not re.search(r"\b(unsigned|int|long|Index|IT_?|IndexType)\b", fn.ntype(base)):
+                continue
+            # enclosing counting loops, outermost first
+            chain = [f for f in fors if contains(f.get("body") or {}, store)]
+            chain.sort(key=lambda f: -sum(1 for _ in walk(f)))
+            infos = [(f, loop_info(f)) for f in chain]
+            # index = v + c with v the variable of one of the enclosing loops
+            idx_vars = [x.get("d") for x in walk(lhs["idx"]) if x.get("k") == "Ref" and x.get("dk") == "local"]
+            owner = None
+            for f, info in infos:
+                if info is not None and info[0]["d"] in idx_vars and len(set(idx_vars)) == 1:
+                    owner = (f, info)
+            if owner is None:
+                continue
+            if it is None:
+                it = L.Interp(fam, fn)
+            fv, vinfo = owner
+            body = fv.get("body") or {}
+            top = body.get("s", []) if body.get("k") == "Block" else [body]
+            if not any(t is store for t in top):
+                continue                      # store under a condition / in an inner loop of the row loop: another idiom (conditional cursor)
+            inner = [(f, loop_info(f)) for f in fors if f is not fv and contains(body, f)]
+            key = L.fkey(fn)
+            ordn = "array%d" % sorted({L.unwrap(L.unwrap(x["lhs"])["b"]).get("d") for x in fn.nodes() if x.get("k") == "Assign" and L.unwrap(x["lhs"]).get("k") == "Index"
+                                        and L.unwrap(L.unwrap(x["lhs"])["b"]).get("k") == "Ref"}).index(base["d"])
+            tgt = L._idx_expr(it, base)
+            if tgt is not None:
+                ordn = "%s._indices[%s]" % (tgt[0].split("#")[0], tgt[1])
+            else:
+                defs = it.ptr_defs().get(base["d"], [])
+                if len(defs) == 1:
+                    e0 = L.unwrap(defs[0])
+                    if e0.get("k") == "MCall" and e0.get("n") == "elements" and e0.get("obj") is not None and L.unwrap(e0["obj"]).get("k") == "Ref":
+                        vd = L.unwrap(e0["obj"])["d"]
+                        for c_ in fn.nodes():
+                            if c_.get("k") in ("Construct", "TempObj") and L.short(c_.get("ccls", "")) in fam.classes:
+                                for pn_, a_ in zip(c_.get("pn") or [], c_.get("a") or []):
+                                    if L.unwrap(a_).get("k") == "Ref" and L.unwrap(a_).get("d") == vd:
+                                        ordn = "array:" + pn_
+            sub = "store:%s[%s]" % (ordn, re.sub(r"\b%s\b" % re.escape(vinfo[0]["n"]), "v", render(lhs["idx"])))
+            verdict, det = True, "stored in every iteration of its row loop; no skip inside the enclosing loops"
+            # statements that can skip the store: before it in the row loop body, and before the row loop in each enclosing loop body
+            regions = [(top, store)]
+            for f, _ in infos:
+                if f is fv or not contains(f.get("body") or {}, fv):
+                    continue
+                b = f.get("body") or {}
+                regions.append((b.get("s", []) if b.get("k") == "Block" else [b], fv))
+            undecided = None
+            for stmts, target in regions:
+                for t in stmts:
+                    if t is target or contains(t, target):
+                        # the row loop nested in an if: the other side skips it
+                        n_ = t
+                        while n_ is not target and n_.get("k") == "Block":
+                            n_ = next((c for c in n_.get("s", []) if c is target or contains(c, target)), target)
+                        if n_ is not target and n_.get("k") == "If":
+                            in_then = n_.get("then") is not None and (n_["then"] is target or contains(n_["then"], target))
+                            conds = [(n_["c"], not in_then)]
+                        else:
+                            conds = []
+                        stop = True
+                    else:
+                        conds = skips(t)
+                        stop = False
+                    for cond, when in conds:
+                        if empties(cond, when, vinfo):
+                            continue
+                        hit = [f for f, inf in inner if inf is not None and empties(cond, when, inf)]
+                        if hit:
+                            verdict = False
+                            det = ("the per-row store %s is bypassed when `%s` is %s - that is the emptiness of the inner loop at line %s (no entries in this block of rows), "
+                                   "not of the row loop itself: rows without entries keep an uninitialised offset" % (render(lhs)[:40], render(cond)[:40], "true" if when else "false", hit[0].get("l")))
+                        elif undecided is None:
+                            undecided = "the store %s can be skipped under `%s`, which the check can relate neither to the row loop nor to an inner loop" % (render(lhs)[:40], render(cond)[:40])
+                    if stop:
+                        break
+            if verdict and undecided:
+                ck.ob("C02.E2.offset-store-unconditional", "%s/%s" % (key, sub), True, "undecided: " + undecided, fn.file, store.get("l"), trivial=True)
+                continue
+            if not verdict:
+                if ("offstore", key, sub) in seen_fail:
+                    continue
+                seen_fail.add(("offstore", key, sub))
+            ck.ob("C02.E2.offset-store-unconditional", "%s/%s" % (key, sub), verdict, det, fn.file, store.get("l"), sample={"function": fn.full, "store": render(lhs)[:60], "detail": det})
+
+
+# -------------------------------------------------------------------------------------------------
+# alias safety of members that forward to an alias-aware kernel
+# -------------------------------------------------------------------------------------------------
+
+def alias_member_rules(ck, fam, facts, roles_tab, seen_fail):
+    by_decl = {f.d.get("decl"): f for f in facts.functions if f.body is not None}
+
+    def alias_aware(fn, depth=0):
+        """does fn (or a function it forwards its pointer parameters to) compare two of its pointer parameters?"""
+        ptr = {p["d"] for p in fn.params if "*" in fn.type(p["t"])}
+        for n in fn.nodes():
+            if n.get("k") == "Bin" and n.get("op") in ("==", "!="):
+                a, b = L.unwrap(n["lhs"]), L.unwrap(n["rhs"])
+                if a.get("k") == "Ref" and b.get("k") == "Ref" and a.get("d") in ptr and b.get("d") in ptr and a.get("d") != b.get("d"):
+                    return True
+        if depth < 2:
+            for c in fn.calls():
+                g = by_decl.get(c.get("cdecl"))
+                if g is not None and g is not fn and sum(1 for a in (c.get("a") or []) if L.unwrap(a).get("k") == "Ref" and L.unwrap(a).get("d") in ptr) >= 2 and alias_aware(g, depth + 1):
+                    return True
+        return False
+
+    for fn in fam.functions():
+        cls = L.short(fn.cls)
+        if fn.body is None or fn.cfg is None or fn.d.get("ctor") or cls not in roles_tab:
+            continue
+        xs = [p for p in fn.params if L.short(fn.type(p["t"])).replace("const ", "").replace("&", "").strip() == cls and fn.type(p["t"]).strip().endswith("&")
+              and fn.type(p["t"]).strip().startswith("const ")]
+        if not xs:
+            continue
+        slot_of = {}
+        for k, names in roles_tab[cls].items():
+            for nm in names:
+                slot_of[nm] = k
+        for px in xs:
+            xd = px["d"]
+            # explicit alias handling: a comparison of this with &x
+            guarded = any(n.get("k") == "Bin" and n.get("op") in ("==", "!=") and {L.unwrap(n["lhs"]).get("k"), L.unwrap(n["rhs"]).get("k")} == {"This", "Un"}
+                          for n in fn.nodes())
+            # evidence that the aliased call is provided for
+            aware = None
+            for c in fn.calls():
+                g = by_decl.get(c.get("cdecl"))
+                if g is None or L.short(g.cls) in fam.classes:
+                    continue
+                from_this = from_x = False
+                for a in c.get("a") or []:
+                    a0 = L.unwrap(a)
+                    if a0.get("k") == "MCall" and not a0.get("a"):
+                        o = L.obj_id(a0.get("obj")) if a0.get("obj") is not None else "this"
+                        from_this = from_this or o == "this"
+                        from_x = from_x or (o is not None and o.endswith("#%s" % xd))
+                if from_this and from_x and alias_aware(g):
+                    aware = c
+                    break
+            if aware is None or guarded:
+                continue
+            writes, reads = [], []
+            itx = L.Interp(fam, fn)
+            for n in fn.nodes():
+                if n.get("k") == "Assign":
+                    l = L.unwrap(n["lhs"])
+                    if l.get("k") == "MCall" and not l.get("a") and (l.get("obj") is None or L.obj_id(l.get("obj")) == "this") and l.get("n", "").lstrip("_") in slot_of:
+                        writes.append((n, {slot_of[l["n"].lstrip("_")]}, "%s() = ..." % l["n"]))
+                    elif l.get("k") == "MCall" and l.get("n") in ("at", "operator[]") and l.get("obj", {}).get("k") == "Member" and L.SCAL_RE.search(l["obj"].get("qn", "")) \
+                            and L.obj_id(l["obj"].get("b")) == "this":
+                        i0 = L.unwrap(l["a"][0]) if l.get("a") else {}
+                        writes.append((n, {int(i0["v"])} if i0.get("k") == "Int" else "all", "_scalar_index slot write"))
+                if n.get("k") == "MCall" and n.get("obj", {}).get("k") == "Member" and L.SCAL_RE.search(n["obj"].get("qn", "")) and L.obj_id(n["obj"].get("b")) == "this" \
+                        and n.get("n") in ("push_back", "clear", "assign"):
+                    writes.append((n, "all", "_scalar_index.%s" % n["n"]))
+                if n.get("k") == "MCall" and L.short(n.get("ccls", "")) in fam.classes and not n.get("cconst") and not n.get("cstatic") \
+                        and (n.get("obj") is None or L.obj_id(n.get("obj")) == "this") and n.get("n", "").lstrip("_") not in slot_of \
+                        and not (itx.summary(fam.callee_fn(fn, n)) == "identity" if fam.callee_fn(fn, n) is not None else False):
+                    writes.append((n, "all", "%s()" % n["n"]))
+                if n.get("k") == "MCall" and n.get("obj") is not None and (L.obj_id(n["obj"]) or "").endswith("#%s" % xd):
+                    nm = n.get("n", "").lstrip("_")
+                    comp = {slot_of[nm]} if nm in slot_of else {"arrays"} if nm in ("elements", "val", "col_ind", "row_ptr", "indices", "offsets", "row_numbers") else "any"
+                    reads.append((n, comp, "x.%s()" % n.get("n")))
+            hazards = []
+            for wn, wc, wt in writes:
+                ww = fn.cfg.block_of(wn.get("i"))
+                if ww is None:
+                    continue
+                for rn, rc, rt in reads:
+                    rw = fn.cfg.block_of(rn.get("i"))
+                    if rw is None:
+                        continue
+                    after = (ww[0] == rw[0] and ww[1] < rw[1]) or (ww[0] != rw[0] and rw[0] in fn.cfg.reachable(ww[0]))
+                    if ww[0] == rw[0] and rw[1] > ww[1]:
+                        after = True
+                    elif ww[0] == rw[0]:
+                        # same block, read first: only a loop back edge could bring the read after the write
+                        after = ww[0] in fn.cfg.reachable(ww[0], avoid=()) and any(ww[0] in fn.cfg.reachable(s_) for s_ in fn.cfg.succ.get(ww[0], []))
+                    if not after:
+                        continue
+                    if wc == "all" or rc == "any" or (isinstance(rc, set) and isinstance(wc, set) and rc & wc) or (rc == {"arrays"} and wc == "all"):
+                        hazards.append((wt, wn.get("l"), rt, rn.get("l")))
+            key = "%s/%s-aliases-this" % (L.fkey(fn), px["n"])
+            ok = not hazards
+            det = ("the call with &%s == this is provided for (%s at line %s goes to a kernel that tests its pointer arguments for equality) and there is no `this == &%s` guard; "
+                   % (px["n"], L.short(aware.get("callee", "")), aware.get("l"), px["n"])) + \
+                  ("no state of %s is read after *this was written" % px["n"] if ok else
+                   "%s (line %s) executes after %s (line %s): with &%s == this it returns the value just written" % (hazards[0][2], hazards[0][3], hazards[0][0], hazards[0][1], px["n"]))
+            if not ok:
+                if ("aliasmem", key) in seen_fail:
+                    continue
+                seen_fail.add(("aliasmem", key))
+            ck.ob("C02.alias-safe-members", key, ok, det, fn.file, fn.line, sample={"function": fn.full, "detail": det})
 
 
 # -------------------------------------------------------------------------------------------------
@@ -1274,9 +1563,11 @@ def run(tier):
         extent_rules(ck, fam, seen_fail)
         banded_rules(ck, fam, fx, roles_tab, seen_fail)
         local_array_rules(ck, fam, seen_fail)
+        offset_store_rules(ck, fam, seen_fail)
         cscr_kind_rules(ck, fam, fx, seen_fail)
         if is_driver_tu(fx):
             alias_kernel_rules(ck, fam, fx, seen_fail)
+            alias_member_rules(ck, fam, fx, roles_tab, seen_fail)
         is_driver = fx.tu.endswith("c02_convert.cpp")
         if is_driver:
             clone_rules(ck, fam, seen_fail)
